@@ -68,6 +68,10 @@ func runC01(c *Ctx) {
 	c.r0120(pk)
 	c.r0121(pk)
 	c.r0122(pk)
+	c.r0124(pk)
+	// a hoisted `var` whose name collides with a lexical binding of an intermediate block is an early error: the
+	// script no longer loads (same rule as R02.5)
+	c.alsoUnder(map[string]string{"R02.5": "R01.23"}, nil, func() { c.r025(pk) })
 }
 
 // R01.13: traversals of binding patterns reach every nested binding.
@@ -1837,6 +1841,9 @@ func init() {
 	mutant(&Mutant{Name: "c01-class-declaration-dropped-blindly", Property: "C01", File: "js/stmtlist.go",
 		Old: "\t\t\t\tif hasSideEffects(classDecl) {\n\t\t\t\t\treturn blockStmt // extends, computed names and static initializers are evaluated\n\t\t\t\t}\n", New: "\t\t\t\t_ = classDecl\n",
 		Rule: "R01.21", Construct: "class declaration dropped"})
+	mutant(&Mutant{Name: "c01-optional-chain-for-null-branch", Property: "C01", File: "js/util.go",
+		Old: "\t\t} else if isUndefined(left) {\n\t\t\t// convert conditional expression to optional expr", New: "\t\t} else if isUndefinedOrNull(left) {\n\t\t\t// convert conditional expression to optional expr",
+		Rule: "R01.24", Construct: "only when the other branch is undefined"})
 	mutant(&Mutant{Name: "c01-laststmt-looks-through-labels", Property: "C01", File: "js/util.go",
 		Old: "\t\treturn lastStmt(block.List[len(block.List)-1])\n\t}\n", New: "\t\treturn lastStmt(block.List[len(block.List)-1])\n\t} else if labelled, ok := stmt.(*js.LabelledStmt); ok {\n\t\treturn lastStmt(labelled.Value)\n\t}\n",
 		Rule: "R01.17", Construct: "lastStmt"})
